@@ -8,7 +8,7 @@ import random
 
 from .. import rfc6455 as R
 from ..harness import S, HOST, Result, InvalidScenario, std_world, exc_name
-from ..kernel import SimAbort
+from ..kernel import SimAbort, HarnessError
 from ..runner import derive_seed
 
 ID = "C01"
@@ -118,6 +118,19 @@ def expand(item, seed):
                            {"op": "send_frame", "kind": "bytes", "len": 200, "opcode": 2, "fin": 1, "pseed": 2, "again": "new_data"}],
                    "key": key, "trace": False, "accept": [], "seed": 7}
         for key in ("default", "bytes", "str"):
+            for b in ("ctor", "ctor_nomask", "relayed"):
+                for kind, opc in (("text", 1), ("bytes", 2)):
+                    ops = [{"op": "send_frame", "kind": kind, "len": n, "opcode": opc, "fin": 1, "pseed": n + 17, "build": b}
+                           for n in (0, 1, 2, 5, 125, 126, 127, 4000)]
+                    if b != "relayed":
+                        ops += [{"op": "send_frame", "kind": kind, "len": 9, "opcode": opc, "fin": 0, "pseed": 3, "build": b},
+                                {"op": "send_frame", "kind": kind, "len": 9, "opcode": 0, "fin": 1, "pseed": 4, "build": b}]
+                    yield {"ops": ops, "key": key, "trace": b == "ctor", "accept": [], "seed": 9}
+            for api in ("close", "send_close"):
+                for n in (0, 1, 20, 30):
+                    yield {"ops": [{"op": api, "status": 1001, "kind": "text", "len": n, "pseed": n}], "key": key, "trace": False,
+                           "accept": [], "seed": 10}
+        for key in ("default", "bytes", "str"):
             for opcode in (8, 9, 10):
                 for n in (0, 1, 2, 3, 4, 5, 124, 125):
                     if opcode == 8 and n == 1:
@@ -182,6 +195,13 @@ def gen(rng):
             in_msg = True
         elif r < 0.96:
             ops.append({"op": "send_frame", "kind": "bytes", "len": _len(rng, False), "opcode": rng.choice((1, 2)), "fin": 1, "pseed": ps})
+            if rng.random() < 0.5:
+                # frame objects that do not come from create_frame: built directly (str payloads allowed by the
+                # constructor; MASK flag 0 as every received frame has it) or received from the server and relayed
+                b = rng.choice(("ctor", "ctor", "ctor_nomask", "relayed"))
+                txt = rng.random() < 0.6
+                ops[-1].update(build=b, kind="text" if txt else "bytes", opcode=1 if txt else 2,
+                               len=rng.choice((0, 1, 2, 7, 40, 125, 126, 300)) if txt else _len(rng, False))
         else:
             # the same ABNF object written twice (second time optionally with a new payload): two frames, two key draws
             ops.append({"op": "send_frame", "kind": "bytes", "len": _len(rng, False), "opcode": 2, "fin": 1, "pseed": ps,
@@ -191,6 +211,8 @@ def gen(rng):
     if rng.random() < 0.4:
         ops.append({"op": rng.choice(("close", "send_close")), "status": rng.choice((1000, 1001, 1002, 3000, 4999, 0, 65535, 1005)),
                     "kind": "bytes", "len": rng.choice((0, 0, 3, 60, 123)), "pseed": rng.randrange(1 << 20)})
+        if rng.random() < 0.3:
+            ops[-1].update(kind="text", len=rng.choice((0, 1, 5, 30)))  # the reason as str ("str or bytes")
     accept = []
     if rng.random() < 0.5:
         accept = [rng.choice((1, 2, 3, 7, 100, 1460, 16384, 0)) for _ in range(rng.randrange(1, 8))]
@@ -222,8 +244,12 @@ def run(sc, choices=None):
                 raise InvalidScenario("send_text wants str")
             if op.get("again") not in (None, "same", "new_data", "other_connection"):
                 raise InvalidScenario("again")
-            if isinstance(val, str) and op["op"] in ("send_bytes", "send_binary", "send_close", "close"):
+            if isinstance(val, str) and op["op"] in ("send_bytes", "send_binary"):
                 raise InvalidScenario("str with binary api")
+            if op.get("build") not in (None, "create_frame", "ctor", "ctor_nomask", "relayed") or (op.get("build") and op["op"] != "send_frame"):
+                raise InvalidScenario("build")
+            if op.get("build") == "relayed" and (int(op.get("opcode", 1)) not in (1, 2) or not int(op.get("fin", 1)) or op.get("again")):
+                raise InvalidScenario("only whole data messages are echoed")
             prepared.append((op, val, raw))
         if any(o["op"] in ("close", "send_close") for o in ops[:-1]):
             raise InvalidScenario("close must be last")
@@ -233,7 +259,7 @@ def run(sc, choices=None):
     if sc.get("accept"):
         sock["accept"] = [max(0, int(x)) for x in sc["accept"]]
         sock["accept_cyclic"] = bool(sc.get("accept_cyclic"))
-    w, peers = std_world(seed=int(sc.get("seed", 1)), peer_cfg={"on_close": {"mode": "reply"}}, sock=sock,
+    w, peers = std_world(seed=int(sc.get("seed", 1)), peer_cfg={"on_close": {"mode": "reply"}, "echo": any(o.get("build") == "relayed" for o in ops)}, sock=sock,
                          trace=bool(sc.get("trace")), step_cap=3_000_000)
     keylog = []
     kr = random.Random(int(sc.get("seed", 1)) + 99)
@@ -306,19 +332,36 @@ def run(sc, choices=None):
                 elif name == "send_frame":
                     exp_op = int(op.get("opcode", 1))
                     exp_fin = int(op.get("fin", 1))
-                    frame_obj = ws.ABNF.create_frame(val, exp_op, exp_fin)
+                    build = op.get("build", "create_frame")
+                    if build == "create_frame":
+                        frame_obj = ws.ABNF.create_frame(val, exp_op, exp_fin)
+                    elif build == "ctor":
+                        # a frame object built directly (payload may be a str, as the constructor's signature allows)
+                        frame_obj = ws.ABNF(exp_fin, 0, 0, 0, exp_op, 1, val)
+                    elif build == "ctor_nomask":
+                        frame_obj = ws.ABNF(exp_fin, 0, 0, 0, exp_op, 0, val)
+                    else:
+                        # a frame the library itself produced: received from the (echoing) server, now relayed
+                        c.send(val, exp_op)
+                        for _k in range(40):  # (echoes of earlier messages of this scenario come first)
+                            frame_obj = c.recv_frame()
+                            if frame_obj.opcode == exp_op and frame_obj.fin == 1 and frame_obj.data == raw:
+                                break
+                        else:
+                            raise HarnessError("relay: echo did not arrive")
+                        before, u0, k0 = len(conn.rx), len(w.urandom_log), len(keylog)
                     ret = c.send_frame(frame_obj)
                 elif name == "send_close":
                     exp_op = 8
                     st = int(op.get("status", 1000))
                     exp_payload = st.to_bytes(2, "big") + raw
-                    ret = c.send_close(st, raw)
+                    ret = c.send_close(st, val)
                 else:
                     exp_op = 8
                     st = int(op.get("status", 1000))
                     exp_payload = st.to_bytes(2, "big") + raw
-                    ret = c.close(st, raw, timeout=1)
-            except SimAbort:
+                    ret = c.close(st, val, timeout=1)
+            except (SimAbort, HarnessError):
                 raise
             except BaseException as e:  # noqa
                 res.violate("send_call_raised", f"{ctxbase}/{name}", f"{name}(len={len(raw)}) raised {exc_name(e)}: {e}")
